@@ -75,16 +75,22 @@ func (e *env) randomOp() {
 			e.setProperty(govtypes.MaxDelegators, []uint64{1, 2, 100}[r.Intn(3)])
 		}
 	case 45:
-		e.spUpdate(pool, r.Range(1, 900), r.Chance(30))
+		if e.spUpdate(pool, r.Range(1, 900), r.Chance(30)) {
+			e.repeatDeposit("sp")
+		}
 	case 46:
 		e.collUpdate([][]collectivestypes.WeightedSpendingPool{
 			{{Name: "sp10", Weight: sdk.OneDec()}},
 			{{Name: "sp1", Weight: sdk.NewDecWithPrec(5, 1)}, {Name: "sp1", Weight: sdk.NewDecWithPrec(5, 1)}},
 			{}}[r.Intn(3)], []uint64{14400, 20000}[r.Intn(2)])
 	case 47:
-		e.dappUpsert(e.draft)
+		if e.dappUpsert(e.draft) {
+			e.repeatDeposit("dapp") // bond, change of the dApp, bond again by the same bonder
+		}
 	case 48:
-		e.basketEdit(r.Range(1, 4), r.Range(0, 5))
+		if e.basketEdit(r.Range(1, 4), r.Range(0, 5)) {
+			e.repeatDeposit("basket")
+		}
 	case 49:
 		// a second request while others are pending: several escrow entries at once
 		e.tipRequest(1+r.Intn(4), 1+r.Intn(4), []int64{300, 450, 2_000}[r.Intn(3)])
@@ -146,7 +152,13 @@ func (e *env) randomOp() {
 			e.basketMintCoins(u, e.perturbCoins(coins("ubtc", e.pickAmt()).Add(coin("xeth", e.pickAmt()))))
 		}
 	case 0, 1, 2:
-		e.delegate(u, v, stakable[r.Intn(2)], e.pickAmt())
+		den, amt := stakable[r.Intn(2)], e.pickAmt()
+		e.again["delegate"] = func() { e.delegate(u, v, den, amt+1) }
+		e.delegate(u, v, den, amt)
+		if r.Chance(25) { // a settings change of the delegator, then the same delegation again
+			e.setCompound(u, r.Bool(), [][]string{{"ukex"}, {"ukex", "ubtc", "ukex"}, {}}[r.Intn(3)])
+			e.repeatDeposit("delegate")
+		}
 	case 3, 4:
 		// undelegate part of what the account holds in share tokens (or too much: must fail and roll back)
 		den := stakable[r.Intn(2)]
@@ -209,7 +221,9 @@ func (e *env) randomOp() {
 	case 8:
 		e.rewardAlloc(v, []int64{100, 100, 37}[r.Intn(3)])
 	case 9, 10:
-		e.basketMint(u, []string{"ubtc", "xeth"}[r.Intn(2)], e.pickAmt())
+		den, amt, bk := []string{"ubtc", "xeth"}[r.Intn(2)], e.pickAmt(), e.bk
+		e.again["basket"] = func() { e.bk = bk; e.basketMint(u, den, amt+1) }
+		e.basketMint(u, den, amt)
 	case 11:
 		held := app.BankKeeper.GetBalance(e.ctx(), e.accAddr(u), e.basketDenom()).Amount
 		amt := e.pickAmt()
@@ -245,7 +259,9 @@ func (e *env) randomOp() {
 		if r.Chance(15) {
 			pool = "nosuchpool" // coins are sent before the pool is looked up: must roll back
 		}
-		e.spDeposit(u, pool, []string{"ukex", "ubtc", "xeth"}[r.Intn(3)], e.pickAmt())
+		den, amt := []string{"ukex", "ubtc", "xeth"}[r.Intn(3)], e.pickAmt()
+		e.again["sp"] = func() { e.spDeposit(u, pool, den, amt+1) }
+		e.spDeposit(u, pool, den, amt)
 	case 15:
 		e.spRegister([]int{3, 4, 0}[r.Intn(3)], pool)
 	case 16:
@@ -255,7 +271,9 @@ func (e *env) randomOp() {
 	case 19, 20:
 		e.tipSettle(u)
 	case 21:
-		e.dappBond(u, r.Range(1000, 50_000_000))
+		amt, dapp := r.Range(1000, 50_000_000), e.dapp
+		e.again["dapp"] = func() { e.dapp = dapp; e.dappBond(u, amt/3+1) }
+		e.dappBond(u, amt)
 	case 22:
 		e.dappReclaim([]int{2, u}[r.Intn(2)], r.Range(1, 30_000_000))
 	case 23:
@@ -269,9 +287,20 @@ func (e *env) randomOp() {
 		if held.IsPositive() && !r.Chance(20) {
 			amt = 1 + r.Range(0, held.Int64()-1)
 		}
-		e.collContribute(u, den, amt)
+		coll := e.coll
+		e.again["coll"] = func() { e.coll = coll; e.collContribute(u, den, amt/2+1) }
+		if e.collContribute(u, den, amt) && r.Chance(50) {
+			// the contributor changes his donation and contributes AGAIN
+			e.collDonate(u, []int64{50, 10, 33, 25}[r.Intn(4)])
+			e.repeatDeposit("coll")
+		}
 	case 24:
-		e.collDonate([]int{3, u}[r.Intn(2)], []int64{50, 10, 33, 0, 100}[r.Intn(5)])
+		who := []int{3, u}[r.Intn(2)]
+		if e.collDonate(who, []int64{50, 10, 33, 0, 100}[r.Intn(5)]) && r.Chance(50) {
+			if p, ok := e.poolOf(0); ok { // ... and contributes again with the new donation in force
+				e.collContribute(who, fmt.Sprintf("v%d/ukex", p.Id), 1+r.Range(0, 2_000_000))
+			}
+		}
 	case 25:
 		e.collWithdraw([]int{3, u}[r.Intn(2)])
 	case 26:
@@ -588,6 +617,20 @@ func scenarioEscrows(e *env) {
 		}
 		return out
 	}
+	// every deposit-type operation is repeated by the SAME actor after a settings change of that actor
+	e.delegate(4, 0, "ukex", 2_000_000)
+	e.delegate(5, 0, "ukex", 1_500_000)
+	e.collContribute(4, "v1/ukex", 1_000_000) // a second contributor with plain bonds ...
+	e.collContribute(5, "v1/ukex", 600_000)
+	e.collDonate(5, 50)                        // ... and one who donates half,
+	e.collContribute(5, "v1/ukex", 400_000)   // contributes again (only the donated share of THIS contribution may move),
+	e.collDonate(5, 25)
+	e.collContribute(5, "v1/ukex", 200_001) // and again after lowering the donation
+	e.setCompound(4, true, nil)
+	e.delegate(4, 0, "ukex", 2_000_001)
+	e.spDeposit(5, "sp1", "ukex", 777)
+	e.spUpdateV("sp1", 300, false, 0)
+	e.spDeposit(5, "sp1", "ukex", 778)
 	e.tipRequestIDs(1, 4, ids(1), 500)
 	e.tipRequestIDs(2, 4, ids(2), 700)
 	e.tipRequestIDs(3, 1, ids(3), 300)
@@ -611,6 +654,9 @@ func scenarioEscrows(e *env) {
 	e.undelegate(3, 0, "ukex", 3_000_000)
 	e.dappReclaim(3, 4_000_000)
 	e.dappUpsert(&d) // drafted before the reclaim
+	e.dappBond(3, 1_000_003) // the same bonder bonds again after the dApp was edited
+	e.collWithdraw(5)
+	e.collWithdraw(4)
 	e.spUpdate("sp1", 250, true)
 	e.basketEdit(3, 2)
 	e.collUpdate([]collectivestypes.WeightedSpendingPool{{Name: "sp10", Weight: sdk.OneDec()}}, 14400)
